@@ -73,13 +73,17 @@ const (
 	inBuffer = 0 // input = source.Buffer(1)
 	inMap    = 1 // input = fun.Map(source, identity, 2 workers)
 	inSplit  = 2 // input = source.Split(1)[0]
+	inPlain  = 3 // input = the (blocking, context guarded) source iterator itself
 
 	stClose       = 1
 	stCancel      = 2
 	stCloseCancel = 3
+	stCancelClose = 4
 )
 
-var innerNames = []string{"Buffer(1)", "Map(2 workers)", "Split(1)[0]"}
+var stopNames = []string{"", "close", "cancel", "close-then-cancel", "cancel-then-close"}
+
+var innerNames = []string{"Buffer(1)", "Map(2 workers)", "Split(1)[0]", "blocking source iterator"}
 var errDownstream = errors.New("conversion failed")
 
 var modeNames = []string{"exhaust", "close", "cancel", "close-then-cancel", "abandon-one-close-others", "blocked-close", "blocked-cancel",
@@ -91,6 +95,7 @@ const (
 	gCtxErr    = 1 // n values, then waits for its context to end and returns ctx.Err()
 	gFailing   = 2 // n values, then EVERY call fails with an ordinary error; the generator does not look at its context ("the source went down")
 	gPanicking = 3 // n values, then every call panics; the generator does not look at its context
+	gWrapped   = 4 // n values, then an error that WRAPS io.EOF: the end of the stream everywhere in the library (errors.Is)
 
 	oNone            = 0
 	oContinueOnError = 1
@@ -98,7 +103,7 @@ const (
 	oContinueOnBoth  = 3
 )
 
-var behNames = []string{"succeeds", "returns-ctx-err", "fails-ignoring-ctx", "panics-ignoring-ctx"}
+var behNames = []string{"succeeds", "returns-ctx-err", "fails-ignoring-ctx", "panics-ignoring-ctx", "ends-with-wrapped-EOF"}
 var optNames = []string{"abort", "ContinueOnError", "ContinueOnPanic", "ContinueOnError+ContinueOnPanic"}
 
 var errSourceDown = errors.New("source is down")
@@ -133,6 +138,11 @@ func genProducer(c Case, block bool) fun.Producer[int64] {
 		case gPanicking:
 			time.Sleep(200 * time.Microsecond)
 			panic("source is down")
+		case gWrapped:
+			if i > c.N+64 { // a worker that keeps polling the drained generator: slow it down (keeps the error collector small)
+				time.Sleep(200 * time.Microsecond)
+			}
+			return 0, fmt.Errorf("generator drained: %w", io.EOF)
 		}
 		if block {
 			<-ctx.Done()
@@ -364,6 +374,8 @@ func peekedInput(appCtx context.Context, inner int, vals []int64) (*fun.Iterator
 		it = fun.Map(src, func(_ context.Context, v int64) (int64, error) { return v, nil }, fun.WorkerGroupConfNumWorkers(2))
 	case inSplit:
 		it = src.Split(1)[0]
+	case inPlain:
+		it = src
 	default:
 		it = src.Buffer(1)
 	}
@@ -500,7 +512,11 @@ func runSingle(c Case, root context.Context, obs *Obs) {
 	case mExhaust:
 		var got int
 		var err error
-		ok := bounded(rootBound, func() { got, err = take(cctx, rd, c.N+1) })
+		bound := rootBound
+		if c.Construct == cGenerate && c.Variant != 0 {
+			bound = callBound
+		}
+		ok := bounded(bound, func() { got, err = take(cctx, rd, c.N+1) })
 		obs.Taken = got
 		obs.EOF = ok && got == c.N && errors.Is(err, io.EOF)
 		if !obs.EOF {
@@ -797,11 +813,16 @@ func runPeeked(c Case, root context.Context, obs *Obs) {
 		obs.Stuck = true
 		obs.Detail = fmt.Sprintf("could not take %d items: got %d, err=%v returned=%v", c.K, got, err, ok)
 	}
-	if stop != stCancel {
-		obs.CloseBlock = !closeTwice(rd)
-	}
-	if stop != stClose {
+	if stop == stCancelClose {
 		cancel()
+		obs.CloseBlock = !closeTwice(rd)
+	} else {
+		if stop != stCancel {
+			obs.CloseBlock = !closeTwice(rd)
+		}
+		if stop != stClose {
+			cancel()
+		}
 	}
 	if !bounded(callBound, func() { _, _ = rd.read(cctx) }) {
 		obs.Stuck = true
@@ -1022,7 +1043,7 @@ func firstLines(s string, n int) string {
 func execCase(run *kit.Run, c Case, verbose bool) {
 	c.Name, c.ModeName = names[c.Construct], modeNames[c.Mode]
 	if c.Mode == mPeekedInputs {
-		c.VarName = ", inputs " + innerNames[c.Variant/10] + " peeked under a live context, stop=" + modeNames[c.Variant%10]
+		c.VarName = ", inputs " + innerNames[c.Variant/10] + " peeked under a live context, stop=" + stopNames[c.Variant%10]
 	} else if c.Construct == cGenerate && c.Variant != 0 {
 		c.VarName = ", generator " + behNames[c.Variant%10] + ", " + optNames[c.Variant/10]
 	}
@@ -1226,6 +1247,22 @@ func main() {
 			}
 		}
 	}
+	// Buffer over an input that was advanced once under a live context and whose source then runs dry (blocks,
+	// context guarded): the consumer takes everything there is, so Buffer's pump is parked INSIDE the input's
+	// read - which listens to the context of the input's first advance only. Buffer's close hook closes the
+	// input, and that releases the pump: Close / Close-then-cancel / cancel-then-Close must leave nothing behind.
+	// (cancel alone cannot; MergeIterators has no close hook: both excluded, see above.)
+	for round := 0; round < run.Pick(1, 4); round++ {
+		for _, inner := range []int{inPlain, inBuffer, inSplit, inMap} {
+			for _, stop := range []int{stClose, stCloseCancel, stCancelClose} {
+				for _, per := range []int{2, 3, 5} {
+					for _, cp := range []int{0, 1, 4} {
+						do(Case{Construct: cBuffer, N: per, Workers: 1, Cap: cp, K: per - 1, Mode: mPeekedInputs, Variant: 10*inner + stop})
+					}
+				}
+			}
+		}
+	}
 	// empty / one-item inputs read to the end, many rounds, real parallelism
 	tinyRounds := run.Pick(1500, 20000)
 	for _, k := range []int{cMerge, cMap, cGenerate, cParallelBuffer, cSplit} {
@@ -1244,15 +1281,18 @@ func main() {
 	}
 	for round := 0; round < run.Pick(1, 4); round++ {
 		for opt := oNone; opt <= oContinueOnBoth; opt++ {
-			for beh := gSucceeds; beh <= gPanicking; beh++ {
+			for beh := gSucceeds; beh <= gWrapped; beh++ {
 				vr := 10*opt + beh
 				if vr == 0 {
 					continue // the main enumeration
 				}
 				for _, w := range gws {
 					for _, n := range gns {
-						if beh == gSucceeds {
+						if beh == gSucceeds || beh == gWrapped { // a finite generator: the consumer must reach io.EOF
 							do(Case{Construct: cGenerate, N: n, Workers: w, K: n, Mode: mExhaust, Variant: vr})
+						}
+						if beh == gWrapped && n > 0 {
+							continue // the stop modes of a generator that simply ends are covered by behaviour 0
 						}
 						for _, m := range []int{mClose, mCancel, mCloseCancel} {
 							for cut := 0; cut <= n; cut++ {
